@@ -22,7 +22,14 @@ pub const SLACK_Q_ABS: f64 = 0.002;
 pub const SLACK_Q_ABOVE_PMF: f64 = 1.5;
 
 /// entry points through which the interval of an outcome k is obtained
-pub const FRONTS: [&str; 4] = ["proportion::ci(n, k)", "ci_wilson_ratio(n, k/n)", "Stats fed in batches (extend x2, add_*, extend) .ci", "ci_true(data)"];
+pub const FRONTS: [&str; 6] = [
+    "proportion::ci(n, k)",
+    "ci_wilson_ratio(n, k/n)",
+    "Stats fed in batches (extend x2, add_*, extend) .ci",
+    "ci_true(data)",
+    "Stats collected from an iterator of unknown length .ci",
+    "Stats of shards of 10 merged with + / += .ci",
+];
 
 fn judge_proportion(n: usize, seed: u64, front: usize, l: &mut Local) {
     // intervals for every outcome, per confidence
@@ -69,9 +76,32 @@ fn judge_proportion(n: usize, seed: u64, front: usize, l: &mut Local) {
                 st.extend(&d[(b + 5).min(n)..].to_vec());
                 call(|| st.ci(c))
             }
-            _ => {
+            3 => {
                 let d = data(k);
                 call(|| proportion::ci_true(c, &d))
+            }
+            4 => {
+                let d = data(k);
+                let head = d.len() / 3;
+                // a plain batch chained with a filtered / flattened one: lower size hint = head only
+                let st: proportion::Stats = d[..head].iter().copied().chain(crate::lazy::unsized_iter(&d[head..], 1 + k % 3)).collect();
+                call(|| st.ci(c))
+            }
+            _ => {
+                // the sample counted in shards of 10 (some without any success), merged by value and in place
+                let d = data(k);
+                let mut st = proportion::Stats::default();
+                for (j, sh) in d.chunks(10).enumerate() {
+                    let part: proportion::Stats = sh.iter().copied().collect();
+                    if j % 2 == 0 {
+                        st = st + part;
+                    } else if j % 4 == 1 {
+                        st = part + st;
+                    } else {
+                        st += part;
+                    }
+                }
+                call(|| st.ci(c))
             }
         };
         match out {
@@ -297,7 +327,7 @@ pub fn run(run: &Arc<Run>) {
         v
     };
     run.set_rule(format!(
-        "deterministic (the seed only shifts the grids): n in {:?}; proportion: the real proportion::ci(conf, n, k) for every outcome 0 <= k <= n (an Err counts as not covering), and for a few further populations the same through ci_wilson_ratio(n, k/n), a Stats fed in batches, and ci_true on data, exact coverage C(p) = sum_k Bin(k;n,p)[p in CI(k)] on a 1601-point p-grid over n p, n(1-p) >= 10 plus the interval end points ± 1e-12; \
+        "deterministic (the seed only shifts the grids): n in {:?}; proportion: the real proportion::ci(conf, n, k) for every outcome 0 <= k <= n (an Err counts as not covering), and for a few further populations the same through ci_wilson_ratio(n, k/n), a Stats fed in batches, ci_true on data, a Stats collected from an iterator of unknown length, and shards merged with + / +=, exact coverage C(p) = sum_k Bin(k;n,p)[p in CI(k)] on a 1601-point p-grid over n p, n(1-p) >= 10 plus the interval end points ± 1e-12; \
          quantile: the real quantile::ci_indices on a 197-point q-grid, coverage P(l+1 <= B <= u), B ~ Bin(n,q) (one-sided: P(B >= l+1), P(B <= u)); levels {:?} x 3 kinds. \
          Documented slack: pointwise {}*max-pmf + {}, average |avg - L| <= {} (n >= 25), quantile {}*max-pmf + {} below (and {}*max-pmf above). distinct = distinct (n, kind, level[, q]).",
         ns, LEVELS, SLACK_PT_PMF, SLACK_PT_ABS, SLACK_AVG, SLACK_Q_PMF, SLACK_Q_ABS, SLACK_Q_ABOVE_PMF
@@ -326,7 +356,8 @@ pub fn run(run: &Arc<Run>) {
     let ratio_ns: Vec<usize> = if run.cfg.quick() { vec![1337, 642, 321, 107, 57] } else { vec![2621, 1337, 999, 642, 321, 214, 107, 93, 57, 49] };
     let batch_ns: Vec<usize> = if run.cfg.quick() { vec![400, 200, 107, 75, 30] } else { vec![1000, 600, 400, 250, 200, 107, 75, 50, 30] };
     let data_ns: Vec<usize> = if run.cfg.quick() { vec![100, 40] } else { vec![300, 100, 64, 40] };
-    for (f, v) in [(1usize, &ratio_ns), (2, &batch_ns), (3, &data_ns)] {
+    let shard_ns: Vec<usize> = if run.cfg.quick() { vec![200, 100, 57] } else { vec![600, 400, 200, 100, 57, 33] };
+    for (f, v) in [(1usize, &ratio_ns), (2, &batch_ns), (3, &data_ns), (4, &data_ns), (5, &shard_ns)] {
         for &n in v.iter() {
             items.push((f, n + (seed % 3) as usize));
         }
